@@ -158,6 +158,9 @@ QUICK = [
     ("jpsi_gpipi_omega.hel", "cat", T4B, 3), ("jpsi_gpipi_omega.can", "cat", TB, 3),
     ("lc_pkpi.hel", "cat", TA, 3), ("lc_pkpi.can", "cat", ["bwff", "spy1"], 2),
     ("jpsi_ksp_sigma_n.hel", "cat", T4B, 3), ("jpsi_ksp_sigma_n.can", "cat", TB, 2),
+    # helicity-coupling mode
+    ("one-res.hel+H", "cat", T4A, 2), ("two-res-two-topologies.can+H", "cat", TD, 2),
+    ("jpsi_gpipi_f0f2.hel+H", "cat", T4B, 2),
 ]
 HEAVY = {"half-integer-res.can", "identical-particles-image.can", "four-body-topology0.can",
          "four-body-topology1.can"}
@@ -186,6 +189,10 @@ def thorough_table() -> list:
         ("jpsi_gpipi_omega.can", "cat", T4A, 4), ("jpsi_gpipi_omega.can", "full", T4B, 3),
         ("lc_pkpi.hel", "cat", TAGS, 3), ("lc_pkpi.hel", "cat", T4A, 4), ("lc_pkpi.can", "cat", T4B, 3),
         ("jpsi_ksp_sigma_n.hel", "cat", T4B, 4), ("jpsi_ksp_sigma_n.can", "cat", T4B, 3),
+        # helicity-coupling mode
+        ("one-res.hel+H", "cat", TAGS, 3), ("two-res-two-topologies.can+H", "cat", TD, 3),
+        ("jpsi_gpipi_f0f2.hel+H", "cat", T4B, 3), ("same-res-three-topologies.hel+H", "cat", T4A, 3),
+        ("identical-particles-image.hel+H", "cat", T4A, 3),
     ]
     return out
 
@@ -195,9 +202,11 @@ def reaction_list(tier: str) -> list[dict]:
     base = base_reactions()
     out = []
     for name, sel, tags, depth in (QUICK if tier == "quick" else thorough_table()):
-        rdesc = {"spec": base[name]} if name in base else {"catalogue": name}
+        couplings = name.endswith("+H")  # the same reaction in helicity-coupling mode
+        plain = name[:-2] if couplings else name
+        rdesc = {"spec": base[plain]} if plain in base else {"catalogue": plain}
         out.append({"rid": f"{name}|{sel}|{len(tags)}tags|d{depth}", "name": name, "reaction": rdesc,
-                    "tags": list(tags), "depth": depth, "sel": sel})
+                    "tags": list(tags), "depth": depth, "sel": sel, "couplings": couplings})
     return out
 
 
@@ -497,6 +506,17 @@ def close(a, b) -> bool:
 _SETUP = {}
 
 
+def new_builder(reaction, couplings: bool):
+    """A fresh builder; `couplings`: helicity-coupling mode (a builder configuration in which
+    assigned dynamics must attach exactly as in coefficient mode)."""
+    import ampform  # noqa: PLC0415
+
+    b = ampform.get_builder(reaction)
+    if couplings:
+        b.config.use_helicity_couplings = True
+    return b
+
+
 class Setup:
     def __init__(self, entry, seed) -> None:
         import ampform  # noqa: PLC0415
@@ -505,6 +525,7 @@ class Setup:
 
         self.entry = entry
         self.seed = seed
+        self.couplings = bool(entry.get("couplings"))
         self.reaction = R.reaction_from(entry["reaction"])
         self.canonical = self.reaction.formalism != "helicity"
         self.nodes, self.images = S.enumerate_nodes(self.reaction)
@@ -523,7 +544,7 @@ class Setup:
                 g = self.images[n["ti"]][n["gi"]]
                 self.lib_decay[n["key"]] = TwoBodyDecay.from_transition(g, n["node"])
         # names of chains and of amplitude sums
-        b = ampform.get_builder(self.reaction)
+        b = new_builder(self.reaction, self.couplings)
         self.chain_name = {}
         self.amp_of = {}
         for ti, t in enumerate(self.reaction.transitions):
@@ -568,7 +589,7 @@ class Setup:
         import ampform  # noqa: PLC0415
 
         if self.universal is None:
-            b = ampform.get_builder(self.reaction)
+            b = new_builder(self.reaction, self.couplings)
             for k, i in self.key_index.items():
                 b.dynamics.assign(self.lib_decay[k], uni_builder(i))
             model = b.formulate()
@@ -616,7 +637,7 @@ def get_setup(case) -> Setup:
     key = (case["rid"], case["tier"], case.get("seed", 0))
     if key not in _SETUP:
         _SETUP.clear()
-        _SETUP[key] = Setup({k: case[k] for k in ("rid", "name", "reaction", "tags", "depth", "sel")},
+        _SETUP[key] = Setup({k: case.get(k) for k in ("rid", "name", "reaction", "tags", "depth", "sel", "couplings")},
                             case.get("seed", 0))
     return _SETUP[key]
 
@@ -657,7 +678,7 @@ def eval_case(case):
 
     # initial registration: the selector knows exactly the decays of all chains + images
     if case["shard"] == 0:
-        b0 = ampform.get_builder(su.reaction)
+        b0 = new_builder(su.reaction, su.couplings)
         got = su.read_map(b0.dynamics)
         n_eval += 1
         if set(got) != set(su.keys):
@@ -676,7 +697,7 @@ def eval_case(case):
             continue
         n_states += 1
         n_traces += 1
-        builder = ampform.get_builder(su.reaction)
+        builder = new_builder(su.reaction, su.couplings)
         for oi in hist:
             su.apply_real(builder.dynamics, su.ops[oi])
         real = su.read_map(builder.dynamics)
@@ -769,7 +790,7 @@ def eval_case(case):
                 ok = all(fn is before[d] for d, fn in selector.items())
             if not ok:
                 counters["selector_rebuilt"] = counters.get("selector_rebuilt", 0) + 1
-                builder = ampform.get_builder(su.reaction)
+                builder = new_builder(su.reaction, su.couplings)
                 for o in hist:
                     su.apply_real(builder.dynamics, su.ops[o])
                 selector = builder.dynamics
